@@ -25,7 +25,9 @@ RULE = (
     "Mapping2D3D, with and without gap detection), element descriptions, annotator CLI stdout/JSON/CSV, the stdout of clashfinder and "
     "motif_extractor and the files written by splitter for the same input, write_pdb "
     "and write_cif text of the atom table, both removals. Oracle (metamorphic): all digests equal across "
-    "interpreters, seeds and passes. Non-trivial: an input whose all-dot-brackets list has >=2 members, or a 3D "
+    "interpreters, seeds and passes. Additionally SIBLING inputs - the same molecule with two sets of coordinates, as NMR models or MD "
+    "frames are - are processed in one interpreter in both orders: every artefact of an input must be the same whatever "
+    "was processed before it. Non-trivial: an input whose all-dot-brackets list has >=2 members, or a 3D "
     "file with >=1 base pair, stacking and BPh/BR contact; distinct = distinct input."
 )
 ASSUMPTIONS = [
@@ -226,6 +228,61 @@ def collect_variants(n, seed):
     return out
 
 
+SIBLING_FILES = ["1A1T_1_B.cif", "1E7K_1_C.cif", "1HMH_1_E.cif", "1DFU_1_M-N.cif", "1ATO.pdb", "4WTI_1_T-P.cif"]
+
+
+def sibling_inputs(fn, k):
+    """the same molecule twice with different coordinates (as two NMR models, two MD frames or two entries of one
+    RNA are): the corpus structure re-emitted as it is, and re-emitted after a gentle shear + rigid motion that keeps
+    identities and, by and large, the secondary structure"""
+    import numpy as np
+    from rnaverif import atomtab, corpus, gen3d
+    from rnaverif.props import c05
+
+    t = c05.table_from_structure(corpus.structure(fn))
+    if not t:
+        return None
+    P = np.array([[a["x"], a["y"], a["z"]] for a in t])
+    c = P.mean(axis=0)
+    S = np.array([[1.0, 0.03, 0.0], [0.0, 1.0, 0.02], [0.0, 0.0, 1.0]])
+    R = np.array(gen3d.AXIS_ROTATIONS[(5 + k) % 24])
+    Q = (P - c) @ S.T @ R.T + c + np.array([3.0, -2.0, 1.0])
+    t2 = [dict(a, x=round(float(q[0]), 3), y=round(float(q[1]), 3), z=round(float(q[2]), 3)) for a, q in zip(t, Q)]
+    if Q.min() < -999 or Q.max() > 9999:
+        return None
+    ext = "pdb" if k % 2 else "cif"
+    emit = atomtab.emit_pdb if ext == "pdb" else atomtab.emit_cif
+    return [{"id": f"sib_{fn}_{k}_a", "kind": "filetext", "ext": ext, "text": emit(t)},
+            {"id": f"sib_{fn}_{k}_b", "kind": "filetext", "ext": ext, "text": emit(t2)}]
+
+
+def compare_orders(inputs, tag):
+    """the same inputs processed in one interpreter in two different orders: every artefact of an input must be the
+    same whatever was processed before it"""
+    fwd = run_child({"inputs": inputs}, 0, tag + "f")
+    rev = run_child({"inputs": list(reversed(inputs))}, 0, tag + "r")
+    result = {inp["id"]: [] for inp in inputs}
+    meta = {}
+    for o in (fwd, rev):
+        if "__child_error__" in o:
+            for inp in inputs:
+                result[inp["id"]].append(D("C14:child-crashed", o["__child_error__"][-300:]))
+            return result, meta
+    for inp in inputs:
+        iid = inp["id"]
+        a, b = fwd.get(iid, {}), rev.get(iid, {})
+        if a.get("error") or b.get("error"):
+            if a.get("error") != b.get("error"):
+                result[iid].append(D("C14:exception-depends-on-processing-order", f"{a.get('error')} vs {b.get('error')}"))
+            continue
+        meta[iid] = a.get("meta", {})
+        pa, pb = a["passes"][0], b["passes"][0]
+        for art in sorted(pa):
+            if pa.get(art) != pb.get(art):
+                result[iid].append(D(f"C14:{art}:depends-on-what-was-processed-before", f"{iid}: {art} differs when the sibling input is processed first"))
+    return result, meta
+
+
 def plan(tier, seed):
     specs = []
     if tier == "quick":
@@ -242,6 +299,8 @@ def plan(tier, seed):
     nmap, mbatch = (24, 12) if tier == "quick" else (400, 25)
     for k in range(nmap // mbatch):
         specs.append({"kind": "mapping", "n": mbatch, "gen_seed": seed * 1000 + 500 + k, "tier": tier, "seed": seed})
+    for k, fn in enumerate(SIBLING_FILES if tier != "quick" else SIBLING_FILES[:4]):
+        specs.append({"kind": "siblings", "file": fn, "k": k + seed, "tier": tier, "seed": seed})
     nvar, vbatch = (24, 6) if tier == "quick" else (480, 20)
     for k in range(nvar // vbatch):
         specs.append({"kind": "variant", "n": vbatch, "gen_seed": seed * 1000 + 700 + k, "tier": tier, "seed": seed})
@@ -252,6 +311,23 @@ def run_shard(spec) -> ShardResult:
     res = ShardResult()
     known = set(known_signatures(PROP_ID))
     tier, seed = spec["tier"], spec["seed"]
+    if spec["kind"] == "siblings":
+        inputs = sibling_inputs(spec["file"], spec["k"]) if os.path.exists(os.path.join(REPO, "tests", spec["file"])) else None
+        if not inputs:
+            res.exhaustive = False
+            return res
+        result, meta = compare_orders(inputs, "sib" + spec["file"].replace(".", "_"))
+        for inp in inputs:
+            m = meta.get(inp["id"], {})
+            res.note_case({"siblings-of": spec["file"], "id": inp["id"], **m}, m.get("n_bp", 0) >= 1, ["same-molecule-other-coordinates-in-one-process"])
+            for d in result[inp["id"]]:
+                if d.sig in known:
+                    res.known_hits[d.sig] += 1
+                elif not any(f["sig"] == d.sig for f in res.failures):
+                    res.failures.append({"sig": d.sig, "what": d.what, "case": {"siblings": {"file": spec["file"], "k": spec["k"]}}})
+        res.extra["interpreters_started"] = 2
+        res.exhaustive = False
+        return res
     if spec["kind"] == "file":
         inp = {"id": spec["file"], "kind": "file", "path": os.path.join(REPO, "tests", spec["file"])}
         inputs = [inp]
@@ -316,6 +392,10 @@ def run_shard(spec) -> ShardResult:
 
 
 def replay(case):
+    if "siblings" in case:
+        inputs = sibling_inputs(case["siblings"]["file"], case["siblings"]["k"])
+        result, _ = compare_orders(inputs, "rp")
+        return [d for v in result.values() for d in v]
     inp = dict(case["input"])
     if inp["kind"] == "file":
         inp["path"] = os.path.join(REPO, "tests", inp["file"])
